@@ -42,6 +42,9 @@ ProjFails(s, st) ==
    \cup Fail("RowTypeReal", st.nr = NR(s.rlp) => st.rtype = [i \in 1..NR(s.rlp) |-> RowType(s.rlp.lhs[i], s.rlp.rhs[i])])
    \cup Fail("Offset", st.offset = s.rlp.offset) \cup Fail("OffsetParam", st.offsetParam = s.offsetPar)
    \cup Fail("SenseParamAgrees", st.senseParam = st.sense)
+   \* C15/C17: what is set is what is used, per object (a copy must not share the tolerances object of its source)
+   \cup Fail("EpsilonParam", st.epsParam = s.epsz) \cup Fail("EpsilonUsed", st.tolEps = s.epsz)
+   \cup Fail("FeastolParam", st.feastolParam = s.ftol)
    \cup Fail("SyncMode", st.sync = s.sync)
    \cup Fail("HasRational", st.hasQ = s.hasQ)
    \cup (IF s.hasQ /\ st.hasQ THEN { "Q:" \o n : n \in LPEq(s.qlp, st.q) }
@@ -75,9 +78,11 @@ TakeBasis(s, st) == [s EXCEPT !.hasBasis = st.hasBasis, !.brow = IF st.hasBasis 
 BasisInvFails(s) == IF s.hasBasis THEN BasisFails(s.rlp, s.brow, s.bcol) ELSE {}
 
 -----------------------------------------------------------------------------
-TVReset == Ev.a = "Reset" /\ objs' = <<>> /\ memo' = <<>> /\ truth' = <<>> /\ l' = l + 1
+NoMemo == [v |-> <<>>, d |-> <<>>]
+TVReset == Ev.a = "Reset" /\ objs' = <<>> /\ memo' = NoMemo /\ truth' = <<>> /\ l' = l + 1
 
-TVCreate == Ev.a = "create" /\ LET s == NewObject IN
+\* the defaults of the real parameters are doubles (1e-16, 1e-6 are not dyadic): take their exact values from the first projection
+TVCreate == Ev.a = "create" /\ LET s == [NewObject EXCEPT !.epsz = Ev.st.epsParam, !.ftol = Ev.st.feastolParam] IN
    Step(Fail("FreshId", Ev.o \notin Live) \cup ProjFails(s, Ev.st), Ev.o, s, memo, Forget(Ev.o))
 
 \* a modification through the real or the rational interface
@@ -136,6 +141,7 @@ TVSetReal ==
           s1 == CASE Ev.p = "OBJ_OFFSET" /\ Ev.ret -> [s EXCEPT !.rlp.offset = Ev.v, !.offsetPar = Ev.v]
                   [] Ev.p = "FEASTOL" /\ Ev.ret -> [s EXCEPT !.ftol = Ev.v]
                   [] Ev.p = "OPTTOL" /\ Ev.ret -> [s EXCEPT !.otol = Ev.v]
+                  [] Ev.p = "EPSILON_ZERO" /\ Ev.ret -> [s EXCEPT !.epsz = Ev.v]
                   [] OTHER -> s
       IN Step(ProjFails(s1, Ev.st) \cup OthersFails(Ev.o), Ev.o, s1, memo,
               IF Ev.p = "OBJ_OFFSET" THEN Forget(Ev.o) ELSE KeepT(Ev.o))
@@ -144,7 +150,7 @@ TVSetReal ==
 TVSetSettingsFrom ==
    /\ Ev.a = "setSettingsFrom" /\ Ev.o \in Live
    /\ LET s == objs[Ev.o]  g == Ev.g
-          s1 == [s EXCEPT !.rlp.sense = g.sense, !.rlp.offset = g.offset, !.offsetPar = g.offset, !.ftol = g.ftol, !.otol = g.otol,
+          s1 == [s EXCEPT !.rlp.sense = g.sense, !.rlp.offset = g.offset, !.offsetPar = g.offset, !.ftol = g.ftol, !.otol = g.otol, !.epsz = g.epsz,
                           !.iterlimit = g.iterlimit, !.ensureray = g.ensureray]
       IN Step(Fail("SetSettingsKeepsSync(harness)", g.sync = s.sync) \cup ProjFails(s1, Ev.st) \cup OthersFails(Ev.o),
               Ev.o, s1, memo, Forget(Ev.o))
@@ -189,16 +195,22 @@ TVOptimize ==
           k == MemoKey(s)
           conclusive == r.status \in {ST_OPTIMAL, ST_UNBOUNDED, ST_INFEASIBLE, ST_INFORUNBD}
           gap == IF r.status = ST_OPTIMAL /\ r.hasSol /\ base = {} THEN GapBound(s.rlp, r.sol, s.ftol, s.otol) ELSE "0"
-          mfails == IF Ev.limited \/ k \notin DOMAIN memo \/ ~conclusive THEN {}
-                    ELSE Fail("SameStatusAsOtherSolveOfSameLP", Compat(memo[k].status, r.status))
+          mfails == IF Ev.limited \/ k \notin DOMAIN memo.v \/ ~conclusive THEN {}
+                    ELSE Fail("SameStatusAsOtherSolveOfSameLP", Compat(memo.v[k].status, r.status))
                          \cup Fail("SameValueAsOtherSolveOfSameLP",
-                                   memo[k].status = ST_OPTIMAL /\ r.status = ST_OPTIMAL /\ r.hasSol =>
-                                   BRLeq(BRAbs(BRSub(memo[k].val, r.objval)), BRAdd(memo[k].gap, gap)))
-          newmemo == IF Ev.limited \/ k \in DOMAIN memo \/ ~conclusive THEN memo
-                     ELSE memo @@ (k :> [status |-> r.status, val |-> r.objval, gap |-> gap])
+                                   memo.v[k].status = ST_OPTIMAL /\ r.status = ST_OPTIMAL /\ r.hasSol =>
+                                   BRLeq(BRAbs(BRSub(memo.v[k].val, r.objval)), BRAdd(memo.v[k].gap, gap)))
+          \* C17 determinism memo: same <LP, all parameters + seed, start basis> => bit-identical result record
+          \* (claimed for fresh objects given the same LP and for the same unmodified object after clearBasis: the
+          \*  driver tags the solves that must coincide with a common detKey)
+          dk == <<Ev.detKey, s.rlp, Ev.pdig, s.hasBasis, s.brow, s.bcol>>
+          dfails == IF Ev.detKey # "" /\ dk \in DOMAIN memo.d THEN Fail("Deterministic", memo.d[dk] = r) ELSE {}
+          newmemo == [v |-> IF Ev.limited \/ k \in DOMAIN memo.v \/ ~conclusive THEN memo.v
+                            ELSE memo.v @@ (k :> [status |-> r.status, val |-> r.objval, gap |-> gap]),
+                      d |-> IF Ev.detKey = "" \/ dk \in DOMAIN memo.d THEN memo.d ELSE memo.d @@ (dk :> r)]
           s1 == [s EXCEPT !.status = r.status, !.hasSol = r.hasSol, !.hasBasis = r.hasBasis,
                           !.brow = IF r.hasBasis THEN r.brow ELSE <<>>, !.bcol = IF r.hasBasis THEN r.bcol ELSE <<>>]
-      IN Step(base \cup mfails \cup ProjFails(s1, st) \cup OthersFails(Ev.o)
+      IN Step(base \cup mfails \cup dfails \cup ProjFails(s1, st) \cup OthersFails(Ev.o)
               \cup Fail("Completeness", Ev.complete /\ t.known /\ t.v = "OPT" => r.status = ST_OPTIMAL),
               Ev.o, s1, newmemo, KeepT(Ev.o))
 
@@ -233,7 +245,8 @@ TVCopy ==
    /\ Ev.a \in {"copy", "assign"} /\ Ev.src \in Live
    /\ LET s == objs[Ev.src] IN
       Step(Fail("CopyTargetFresh", Ev.a = "copy" => Ev.o \notin Live)
-           \cup { "Copy:" \o n : n \in ProjFails(s, Ev.st) } \cup OthersFails(Ev.o),
+           \cup { "Copy:" \o n : n \in ProjFails(s, Ev.st) } \cup OthersFails(Ev.o)
+           \cup Fail("CopySolution", Ev.dstSol = Ev.srcSol),
            Ev.o, s, memo, [KeepT(Ev.o) EXCEPT ![Ev.o] = KeepT(Ev.src)[Ev.src]])
 TVDestroy ==
    /\ Ev.a = "destroy" /\ Ev.o \in Live
@@ -241,7 +254,7 @@ TVDestroy ==
       THEN /\ objs' = [k \in Live \ {Ev.o} |-> objs[k]] /\ memo' = memo /\ truth' = truth /\ l' = l + 1
       ELSE PrintT(<<"GUARDFAIL", l, Ev.a, OthersFails(Ev.o)>>) /\ FALSE
 
-Init == objs = <<>> /\ memo = <<>> /\ truth = <<>> /\ l = 1
+Init == objs = <<>> /\ memo = NoMemo /\ truth = <<>> /\ l = 1
 Next == /\ l <= Len(Tr)
         /\ \/ TVReset \/ TVCreate \/ TVMod \/ TVSetInt \/ TVSetBool \/ TVSetReal \/ TVSetSettingsFrom \/ TVSync \/ TVWitness
            \/ TVOptimize \/ TVSetBasis \/ TVClearBasis \/ TVQueryBasis \/ TVCopy \/ TVDestroy
